@@ -42,7 +42,7 @@ META = {
 }
 
 MANIFEST = {
-    'level_text': 'Bounded scenarios executed by the verifier on the real code + proved flag discipline: for six edit sequences and six recomputation schedules the written bytes equal those of the lazy schedule; each of 14 public mutators marks the metadata stale (or recomputes) and the following write reflects the edit; _finish_add/_finish_remove proved for symbolic sizes. One defect repaired (K11: add_isohybrid left metadata unmarked).',
+    'level_text': 'Bounded scenarios executed by the verifier on the real code + proved flag discipline: for six edit sequences and six recomputation schedules, and for random edit histories under random per-edit schedules and in always-consistent mode, the written bytes equal those of the lazy schedule; each of 14 public mutators marks the metadata stale (or recomputes) and the following write reflects the edit; _finish_add/_finish_remove proved for symbolic sizes. One defect repaired (K11: add_isohybrid left metadata unmarked).',
     'level_note': 'NOT a proof over all histories: bounded table of sequences and schedules. Trusted: pyvc executing the real mastering code (byte-identical with CPython on the cross-check), pinned clock/random.',
     'design_ref': 'DESIGN.md section 4 C06',
 }
